@@ -140,7 +140,7 @@ def run(tier, seed, ev):
             os.makedirs(xd)
             args = [lha, mode + ("w=" + xd if mode.startswith("x") else ""), f]
             try:
-                p = subprocess.run(args, capture_output=True, env=V.run_env(), stdin=subprocess.DEVNULL, timeout=300, cwd=xd)
+                p = V.run_bounded(args, capture_output=True, env=V.run_env(), stdin=subprocess.DEVNULL, timeout=300, cwd=xd)
                 rc, err = p.returncode, p.stderr
             except subprocess.TimeoutExpired:
                 rc, err = "timeout", b""
